@@ -623,16 +623,40 @@ func streamMutations(sink *Sink, rng *rand.Rand, tier string, scratch string) {
 			}
 		}
 		denoms := []uint64{1, 2, 4, 8, 16, 32, 64, 128, 1 << 20, 1 << 59}
+		// an untouched proof to accompany a mutated one: preferably one of the same keyset and denomination as the
+		// proof the mutation started from (whatever the verifier remembers from the neighbour must not help)
+		partner := func(of *hSecret, not *hSecret) *hSecret {
+			var any *hSecret
+			for _, o := range h.spendable() {
+				if o == of || o == not {
+					continue
+				}
+				if o.ks == of.ks && o.amount == of.amount {
+					return o
+				}
+				if any == nil {
+					any = o
+				}
+			}
+			return any
+		}
 		try := func(i inSpec, what string) {
 			h.nontrivial = true
 			sink.Stat("mutation=" + what)
-			// a mutated proof together with an untouched honest one, in both orders, to swap; and alone to a melt
+			// the mutated proof alone to a swap and to a melt; and together with an untouched honest one, in both orders, to a swap
 			outs := h.freshOutputs([]uint64{1})
 			h.OpSwap(mode{}, []inSpec{i}, outs)
 			if q := h.OpMeltQuote(mode{}, 1000, nil, 0, true, true, nil); q != nil {
 				h.OpMelt(mode{}, q, []inSpec{i}, false)
 			}
+			if o := partner(i.sec, i.cSec); o != nil {
+				h.OpSwap(mode{}, []inSpec{h.honest(o), i}, h.freshOutputs([]uint64{1}))
+				if o2 := partner(i.sec, i.cSec); o2 != nil {
+					h.OpSwap(mode{}, []inSpec{i, h.honest(o2)}, h.freshOutputs([]uint64{1}))
+				}
+			}
 		}
+		h.fundAmount(63)
 		sp := h.spendable()
 		for n, s := range sp {
 			if n >= 4 && tier == "quick" {
@@ -680,6 +704,26 @@ func streamMutations(sink *Sink, rng *rand.Rand, tier string, scratch string) {
 					break
 				}
 			}
+			// two proofs of one request with their Cs exchanged (the sum of the Cs is unchanged), to a swap and to a melt
+			if o := partner(s, nil); o != nil && o.ks == s.ks && o.amount == s.amount {
+				a, b := base, h.honest(o)
+				a.cSec, b.cSec = o, s
+				sink.Stat("mutation=Cs-exchanged")
+				h.OpSwap(mode{}, []inSpec{a, b}, h.freshOutputs([]uint64{1}))
+				if q := h.OpMeltQuote(mode{}, 1000, nil, 0, true, true, nil); q != nil {
+					h.OpMelt(mode{}, q, []inSpec{a, b}, false)
+				}
+				// a neighbour of the same denomination whose claimed amount is no key of the keyset at all
+				for _, d := range []uint64{1023, 1 << 60} {
+					m := h.honest(o)
+					m.amount = d
+					sink.Stat("mutation=amount-not-a-key-after-same-denomination")
+					h.OpSwap(mode{}, []inSpec{base, m}, h.freshOutputs([]uint64{1}))
+					if q := h.OpMeltQuote(mode{}, 1000, nil, 0, true, true, nil); q != nil {
+						h.OpMelt(mode{}, q, []inSpec{base, m}, false)
+					}
+				}
+			}
 			m = base
 			m.cKind, m.cNeg = 1, true
 			try(m, "C-negated")
@@ -708,7 +752,7 @@ func streamMutations(sink *Sink, rng *rand.Rand, tier string, scratch string) {
 		h.Finish(true)
 	}
 	sink.Close("for every valid proof obtained on up to three keysets: each single-field mutation (amount to every other denomination and to non-denominations, keyset id to every other / an unknown keyset, "+
-		"C replaced by another point / malformed, oversize secret) is presented to Swap and to Melt; then every untouched proof must still be accepted; non-trivial = at least one mutation presented", false, start)
+		"C replaced by another point / malformed, oversize secret) is presented alone to Swap and to Melt and next to an untouched proof (before and after it) to Swap; two proofs with exchanged Cs and a non-key amount behind a proof of the same denomination likewise; then every untouched proof must still be accepted; non-trivial = at least one mutation presented", false, start)
 }
 
 func init() {
